@@ -105,6 +105,15 @@ def expressions(shape, tier):
     lc = [[min(1, c - 1), 0], [0], [0, -1, min(1, c - 1)], [0, c - 1]]
     for a, b in zip(lr, lc):
         E.append(["LL", a, b])
+    # NumPy integer scalars (what iterating over an index array yields) and a single list of rows
+    for i in sorted({-r, -1, 0, r - 1}):
+        E.append(["NI", i])
+        for j in sorted({-c, 0, c - 1}):
+            E.append(["NII", i, j])
+    for j in sorted({-c, -1, 0, c - 1}):
+        E.append(["SNI", j])
+    for a in lr:
+        E.append(["L", a])
     seen, out = set(), []
     for e in E:
         k = repr(e)
@@ -143,6 +152,10 @@ def expr_class(e, shape):
         return f"A[{_cls(e[1], r)}]"
     if k == "SS":
         return f"A[{_cls(e[1], r)},{_cls(e[2], c)}]"
+    if k in ("NI", "NII", "SNI"):
+        return {"NI": "A[np.int64(i)]", "NII": "A[np.int64(i),np.int64(j)]", "SNI": "A[:,np.int64(j)]"}[k]
+    if k == "L":
+        return "A[list]"
     return "A[list,list]"
 
 
@@ -160,7 +173,24 @@ def expr_src(e):
         return f"[{_obj(e[1])!r}]"
     if k == "SS":
         return f"[{_obj(e[1])!r}, {_obj(e[2])!r}]"
+    if k == "NI":
+        return f"[np.int64({e[1]})]"
+    if k == "NII":
+        return f"[np.int64({e[1]}), np.int64({e[2]})]"
+    if k == "SNI":
+        return f"[:, np.int64({e[1]})]"
+    if k == "L":
+        return f"[{e[1]}]"
     return f"[{e[1]}, {e[2]}]"
+
+
+class _ListIndexed:
+    """A[np.array(rows)] is replaced by A[list(rows)] for the "L" expressions; everything else is checked like the array form"""
+    def __init__(self, A):
+        self.A = A
+
+    def __getitem__(self, ids):
+        return self.A[[int(x) for x in ids]] if isinstance(ids, np.ndarray) else self.A[ids]
 
 
 def check_expr(A, R, term, e, seed, exact_ok, lowp):
@@ -168,8 +198,18 @@ def check_expr(A, R, term, e, seed, exact_ok, lowp):
     D = R.mat
     k = e[0]
     tolv = 2e-4 if lowp else 1e-9
-    if k in ("II", "I", "IS", "SI", "LL"):
-        if k == "II":
+    if k == "L":  # a single list selects rows, as an index array does: the result is a sub-operator
+        e = ["S", ["i", list(e[1])]]
+        k = "S"
+        A = _ListIndexed(A)
+    if k in ("II", "I", "IS", "SI", "LL", "NI", "NII", "SNI"):
+        if k == "NI":
+            got, want = A[np.int64(e[1])], D[e[1]]
+        elif k == "NII":
+            got, want = A[np.int64(e[1]), np.int64(e[2])], D[e[1], e[2]]
+        elif k == "SNI":
+            got, want = A[:, np.int64(e[1])], D[:, e[1]]
+        elif k == "II":
             got, want = A[e[1], e[2]], D[e[1], e[2]]
         elif k == "I":
             got, want = A[e[1]], D[e[1]]
